@@ -592,6 +592,10 @@ func genReq(t *rapid.T, sites []Site, label string) Req {
 		host = rapid.SampledFrom([]string{"other.example", "localhost", "127.0.0.1", "0.0.0.0", "test", "a"}).Draw(t, label+"oh")
 	}
 	host = mixCase(t, host, label+"h")
+	if rapid.IntRange(0, 14).Draw(t, label+"nohost") == 0 {
+		// a request that names no host at all (empty Host value): only a catch-all can take it
+		return Req{Host: "", Path: rapid.SampledFrom(reqPaths).Draw(t, label+"path")}
+	}
 	switch rapid.IntRange(0, 3).Draw(t, label+"port") {
 	case 0:
 		host += ":80"
@@ -638,7 +642,7 @@ func TestH2(t *testing.T) {
 		// an HTTP/2 client re-encodes the target: keep the targets it sends verbatim
 		var rs []Req
 		for _, r := range c.Reqs {
-			if !strings.Contains(r.Path, "%") && !strings.Contains(r.Path, "//") && !strings.Contains(r.Path, "..") && isASCII(r.Path) {
+			if r.Host != "" && !strings.Contains(r.Path, "%") && !strings.Contains(r.Path, "//") && !strings.Contains(r.Path, "..") && isASCII(r.Path) {
 				rs = append(rs, r)
 			}
 		}
